@@ -63,7 +63,7 @@ func c10Globals(w *sim.World) string {
 
 func c10Run(rc *sim.RunCtx) {
 	t := rc.T
-	g := newGen(t, genConfig{Modules: true, Hosts: true, Consts: t.Bool(1, 2), GlobalVar: true, NoTrace: true, ShadowBuiltins: true, Params: true, ManyVars: true, MaxStmts: 14})
+	g := newGen(t, genConfig{Modules: true, Hosts: true, Consts: t.Bool(1, 2), GlobalVar: true, NoTrace: true, ShadowBuiltins: true, Params: true, ManyVars: true, FuncTwins: true, MaxStmts: 14})
 	_, mods := g.program()
 	stmts := g.Top[:len(g.Top)-1] // without the final return
 	vars := g.TopVars
